@@ -321,6 +321,9 @@ def op (s : St) (names : List String) (ws : List String) : St × String :=
     | none => (s, "bad-op")
   | ["L", name] => let r := label e name; (setCur s r.1, resStr r.2 ++ (if r.2 == .ok then " " ++ toHex e.address else ""))
   | ["C", txt] => (setCur s (comment e txt), "ok")
+  -- a label / comment of zero characters arrives as the bare letter (fields are separated by blanks)
+  | ["L"] => let r := label e ""; (setCur s r.1, resStr r.2 ++ (if r.2 == .ok then " " ++ toHex e.address else ""))
+  | ["C"] => (setCur s (comment e ""), "ok")
   | ["S", a] => match hexNat? a with | some a => (setCur s (setBase e a), "ok") | none => (s, "bad-op")
   | ["F"] =>
     let r := finalize e
@@ -364,6 +367,7 @@ def run (capW textW : String) (ops : List String) : String :=
     -- label names mentioned anywhere in the history (for the label part of queries)
     let names := (opsW.filterMap (fun ws => match ws with
       | ["L", n] => some n
+      | ["L"] => some ""
       | _ => none)).eraseDups
     let st0 : St := ⟨newEmitter c (textW == "1"), none, false⟩
     let (_, outs) := opsW.foldl (fun (acc : St × List String) ws =>
